@@ -1,5 +1,6 @@
 use crate::diagnostic_emitter::MosResult;
 use crate::impl_notification_handler;
+use crate::lsp::DocumentPath;
 use crate::lsp::{LspContext, NotificationHandler};
 use itertools::Itertools;
 use lsp_types::notification::{
@@ -42,7 +43,7 @@ impl NotificationHandler<DidCloseTextDocument> for DidCloseTextDocumentHandler {
         ctx.parsing_source()
             .lock()
             .unwrap()
-            .remove(&params.text_document.uri.to_file_path().unwrap());
+            .remove(&params.text_document.uri.document_path());
         // The buffer is gone, so from now on the file's contents on disk (if any) are what counts
         ctx.perform_codegen();
         publish_diagnostics(ctx)?;
@@ -51,7 +52,7 @@ impl NotificationHandler<DidCloseTextDocument> for DidCloseTextDocumentHandler {
 }
 
 fn register_document(ctx: &mut LspContext, uri: &Url, source: &str) {
-    let path = uri.to_file_path().unwrap();
+    let path = uri.document_path();
     ctx.parsing_source().lock().unwrap().insert(&path, source);
     ctx.perform_codegen();
 }
